@@ -19,7 +19,7 @@ class PathResult:
         return self.path.pc
 
 
-def explore(world: World, run, assumptions=(), ext=None, loop_specs=None, max_paths=MAX_PATHS, deadline=None):
+def explore(world: World, run, assumptions=(), ext=None, loop_specs=None, max_paths=MAX_PATHS, deadline=None, unroll=0):
     """run(interp) -> (value, state) is executed once per feasible path. Returns list[PathResult].
 
     `run` must build its own (fresh) symbolic state from deterministic names so that re-execution reproduces
@@ -34,6 +34,7 @@ def explore(world: World, run, assumptions=(), ext=None, loop_specs=None, max_pa
         prefix = todo.pop()
         p = Path(world, prefix, list(assumptions))
         it = Interp(world, p, ext_handlers=ext, loop_specs=loop_specs)
+        it.unroll = unroll
         try:
             value, state = run(it)
             outcome = "return"
